@@ -19,7 +19,8 @@ REQUIRED = [
 RULE = (
     "every class (18 model classes, 3 SWHID classes, ImmutableDict) x every attrs field x every channel {setattr, "
     "delattr, item assignment/deletion and every mutating dict/list method on mappings and sequences, later mutation "
-    "of each container passed to the constructor or inside the from_dict argument (top level and nested)} x generated "
+    "of each container passed to the constructor or inside the from_dict argument (top level and nested), construction "
+    "from mappings the caller froze beforehand (argument unchanged, repeatable)} x generated "
     "field values; before/after observation = (dictionary form, id, recomputed hash, ==, hash()); non-trivial = every "
     "case; distinct by (class, channel, field, values)"
 )
@@ -178,6 +179,27 @@ def check_cases(ctx, cases):
         # two objects built from the same arguments are equal, with equal hashes
         if not (o == twin) or (before["hash"] != "unhashable" and before["hash"] != hash(twin)):
             ctx.fail(case, "two objects built from the same arguments are not equal / hash differently", "same-args-not-equal")
+        # the same arguments with every mapping already frozen by the caller: construction must not
+        # change a frozen mapping, and building twice from the same arguments gives equal objects
+        fkw = {k: (ImmutableDict(copy.deepcopy(v)) if isinstance(v, dict) else v) for k, v in kwargs.items()}
+        frozen = {k: v for k, v in fkw.items() if isinstance(v, ImmutableDict)}
+        if frozen:
+            ctx.count("channel=frozen-mapping-arg")
+            snap = {k: (repr(sorted(v.items(), key=repr)), len(v), repr(v)) for k, v in frozen.items()}
+            try:
+                of1 = objgen.build(name, fkw)
+                of2 = objgen.build(name, fkw)
+            except (ValueError, TypeError) as e:
+                ctx.fail(case, f"construction from an already-frozen mapping raises {type(e).__name__}", "frozen-arg-rejected")
+                of1 = of2 = None
+            for k, v in frozen.items():
+                if (repr(sorted(v.items(), key=repr)), len(v), repr(v)) != snap[k]:
+                    ctx.fail(dict(case, field=k), f"building a {name} changes the frozen mapping passed as `{k}`", "constructor-mutates-frozen-argument:" + name + "." + k)
+            if of1 is not None:
+                if not (of1 == of2) or observe(of1) != observe(of2):
+                    ctx.fail(case, "two objects built one after the other from the same (frozen) arguments differ", "same-args-not-equal:frozen")
+                elif not (of1 == o) or observe(of1) != before:
+                    ctx.fail(case, "an object built from a frozen mapping differs from the one built from the equal plain dict", "frozen-arg-differs")
         fields = [f.name for f in attr.fields(type(o))]
         for f in fields:
             ctx.count("channel=setattr")
